@@ -429,7 +429,9 @@ def r3(ctx):
         r = t.get("resolved_full", "")
         m = re.search(r"FromResidual<std::result::Result<std::convert::Infallible, ([^>]+(?:<[^>]*>)?[^>]*)>>>::from_residual", r)
         kinds.append(m.group(1) if m else r[-80:])
-    ctx.count(len(res))
+    prop, direct = propagated_error_kinds(b)
+    kinds += [ty for _, ty in prop]  # `Err(e) => Err(e.into())`: the hand-written form of `?`
+    ctx.count(len(res) + len(prop))
     sig = [k for k in kinds if k == "error::SignatureError"]
     box = [k for k in kinds if k.startswith("std::boxed::Box<dyn std::error::Error")]
     other = [k for k in kinds if k not in sig and k not in box]
@@ -437,12 +439,11 @@ def r3(ctx):
         yield VIOL("C13-R3", "entry/residuals", "`?` residual types in the entry point: %s" % kinds, where=loc(b.j["span"]))
     else:
         # the single boxed one is the body conversion
-        bx = [(bi, t) for (bi, t), k in zip(res, kinds) if k in box][0]
+        bx = ([(bi, t) for (bi, t), k in zip(res, kinds) if k in box] or [(prop[0][0], None)])[0]
         yield PASS("C13-R3", "entry/residuals", "%d `?` propagate SignatureError; 1 propagates the caller's IntoRequestBytes error" % len(sig), [site(b, bx[0], "body?")])
     # no other Err construction in the entry point
-    errs = result_aggs(b, "Err")
-    if errs:
-        yield VIOL("C13-R3", "entry/direct-err", "the entry point constructs an Err directly", where=b.span_of_block(errs[0][0]))
+    if direct:
+        yield VIOL("C13-R3", "entry/direct-err", "the entry point constructs an Err directly", where=b.span_of_block(direct[0][0]))
     # built-in IntoRequestBytes impls never fail
     n = 0
     for body in ctx.facts.find_bodies(r"as signature::IntoRequestBytes>::into_request_bytes"):
